@@ -4,8 +4,11 @@ import RV.Model.Particles
   Python container index rules) on op lines produced by rv/c14.py.
 
   Stateful line protocol (one answer line per input line):
-    variant a b c d e            flags of the source under test (rangeFirst treeFirst lastClamp unsortedClamp resetTree)
-    new tree box forced          fresh simulation (0/1 flags)
+    variant a b c d e f g h      flags of the source under test (rangeFirst treeFirst lastClamp unsortedClamp resetTree
+                                 dcritBounded dcritWithParticles evictClamp)
+    new tree box forced merc     fresh simulation (0/1 flags)
+    tupd q1,q2,..|-              reb_simulation_update_tree; the positions the walk evicts, in order (from the implementation)
+    istep v0,v1,..               one MERCURIUS step: the dcrit array it left (bit patterns)
     add id hash geo              geo: 0 in box, 1 outside boundary, 2 outside tree box
     rm index ks
     rmh hash ks HINT
@@ -21,7 +24,7 @@ import RV.Model.Particles
   qsort is free (equal hashes) the model follows the implementation iff the hinted table is
   a sorted permutation of the model's own unsorted table; otherwise it uses its own stable
   sort and the answer line says `hint=bad`.
-  Answer: `OUT N N_active N_allocated N_var tree_root ps=… tbl=… tail=… hint=…`
+  Answer: `OUT N N_active N_allocated N_var tree_root ps=… tbl=… tail=… dcrit=… rc=.. hint=…`
 -/
 open RV.Particles
 
@@ -55,6 +58,9 @@ def parseEntries (s : String) : Option (List Entry) :=
     | [a, b] => do let h ← a.toNat?; let i ← b.toNat?; pure ⟨h, i⟩
     | _ => none
 
+def parseNats (s : String) : Option (List Nat) :=
+  if s = "-" then some [] else (s.splitOn ",").mapM fun tok => tok.toNat?
+
 def outStr : Out → String
   | .ok => "ok" | .errOutsideBoundary => "errOutsideBoundary" | .errNoBox => "errNoBox"
   | .errOutsideTreeBox => "errOutsideTreeBox" | .errSameCoords => "errSameCoords" | .removed => "removed" | .lastRemoved => "lastRemoved"
@@ -79,7 +85,8 @@ def tailDigest (mem : List P) (n : Nat) : Nat :=
 def stateStr (c : State) : String :=
   let ps := (c.mem.take c.N).map fun p => s!"{p.id}.{p.hash}.{b2s p.flagged}"
   let tb := c.lookup.map fun e => s!"{e.hash}.{e.index}"
-  s!"{c.N} {c.nActive} {c.nAlloc} {c.nVar} {b2s c.treeRoot} ps={joinOr ps} tbl={joinOr tb} tail={tailDigest c.mem c.N}"
+  let dc := c.dcrit.map toString
+  s!"{c.N} {c.nActive} {c.nAlloc} {c.nVar} {b2s c.treeRoot} ps={joinOr ps} tbl={joinOr tb} tail={tailDigest c.mem c.N} dcrit={joinOr dc} rc={b2s c.recalcR}{b2s c.recalcC}"
 
 def hexVal (c : Char) : Option Nat :=
   if '0' ≤ c ∧ c ≤ '9' then some (c.toNat - '0'.toNat)
@@ -112,11 +119,19 @@ def answer (d : DS) (c' : State) (o : Out) (hint : String) : DS × String :=
 
 def stepLine (d : DS) (toks : List String) : DS × String :=
   match toks with
-  | ["variant", a, b, c, e, f] =>
-    ({ d with v := ⟨bit a, bit b, bit c, bit e, bit f⟩ }, "variant-set")
-  | ["new", t, b, f] =>
-    let c := State.init (bit t) (bit b) (bit f)
+  | ["variant", a, b, c, e, f, g, h, i] =>
+    ({ d with v := ⟨bit a, bit b, bit c, bit e, bit f, bit g, bit h, bit i⟩ }, "variant-set")
+  | ["new", t, b, f, m] =>
+    let c := State.init (bit t) (bit b) (bit f) (bit m)
     answer d c .done "none"
+  | ["tupd", vs] =>
+    match parseNats vs with
+    | some visit => let (c', o) := treeUpdate d.v d.c visit; answer d c' o "none"
+    | none => (d, "bad-op")
+  | ["istep", vs] =>
+    match parseNats vs with
+    | some vals => let (c', o) := integratorStep d.c vals; answer d c' o "none"
+    | none => (d, "bad-op")
   | ["add", id, h, g] =>
     match id.toNat?, h.toNat?, g.toNat? with
     | some id, some h, some g => let (c', o) := add d.c ⟨id, h, false⟩ (geoOf g); answer d c' o "none"
